@@ -409,6 +409,19 @@ func c18Ref(tbl *html.Node, tdOnly bool) (string, int) {
 	return "data", 15
 }
 
+func c18Render(c *eng.Case) string {
+	var v []int
+	for _, s := range strings.Split(c.Get("v"), ",") {
+		var x int
+		fmt.Sscan(s, &x)
+		v = append(v, x)
+	}
+	if len(v) != len(c18Features) {
+		return ""
+	}
+	return c18Doc(v, c.Get("ctx"))
+}
+
 func c18Check(c *eng.Case) *eng.Outcome {
 	o := &eng.Outcome{}
 	var v []int
